@@ -513,6 +513,17 @@ Proof.
     + right. exists m. split; reflexivity.
 Qed.
 
+Lemma exec_impl_spec_ok_lemma cf fuel name data_id data first_id :
+  wf_registry (c_reg cf) = true ->
+  (rr_outcome (render cf fuel name data_id data None None first_id) = Ok tt <->
+   sr_outcome (render_spec cf fuel name data first_id) = Ok tt).
+Proof.
+  intros Hreg.
+  destruct (exec_impl_spec_lemma cf fuel name data_id data first_id Hreg) as [_ [H | (e & H1 & H2)]].
+  - rewrite H. tauto.
+  - rewrite H1, H2. split; discriminate.
+Qed.
+
 (* the walker leaves the scope stack and the autoescape mode exactly as it found them *)
 Theorem walk_restores_scope cf fuel c st en entry v st' :
   wf_registry (c_reg cf) = true -> wf KCmd c = true -> good st -> R (ctx st) en entry ->
